@@ -5,6 +5,7 @@ package main
 import (
 	"bytes"
 	"fmt"
+	cosmos_proto "github.com/cosmos/cosmos-proto"
 	"reflect"
 	"strings"
 
@@ -647,6 +648,30 @@ func (c *apiCtx) valueAPI(s *glue.Subject, idx int) {
 		if Fingerprint(S) != Fingerprint(newOf(s.Zero)) {
 			bad("reset-struct", "after Reset() the Go struct differs from a new one")
 		}
+		// a message that has been Reset is a fully working empty message of the same type
+		pan, pmsg := safely(func() {
+			if S.ProtoReflect().Descriptor() != d {
+				panic("VIOLATION after Reset() the message reports descriptor " + string(S.ProtoReflect().Descriptor().FullName()))
+			}
+			if !proto.Equal(S, newOf(s.Zero)) || !proto.Equal(newOf(s.Zero), S) {
+				panic("VIOLATION after Reset() the message is not Equal to a new one")
+			}
+			if err := proto.Unmarshal(want, S); err != nil {
+				panic("VIOLATION Unmarshal into a Reset message: " + err.Error())
+			}
+			if got := SpecEncode(Canon(StructToIR(S))); !bytes.Equal(got, want) {
+				panic("VIOLATION a Reset message decodes the value differently: " + firstDiff(got, want))
+			}
+			if got := SpecEncode(quietF32(Canon(ReflToIR(S.ProtoReflect())))); !bytes.Equal(got, SpecEncode(quietF32(Canon(v)))) {
+				panic("VIOLATION reflection over a Reset-then-decoded message shows another value: " + firstDiff(got, want))
+			}
+			if st, ok := S.(fmt.Stringer); ok {
+				_ = st.String()
+			}
+		})
+		if pan {
+			bad("reset-then-use", pmsg)
+		}
 	} else {
 		bad("reset/missing", "no Reset method")
 	}
@@ -724,6 +749,12 @@ func engineAPI(rep *Report) {
 	}
 	n := perType(25, 1500)
 	only := onlyIndex()
+	if si == 0 {
+		// the messages of the root package (stock protoc-gen-go output in cosmos.pb.go) are part of C19 as well
+		for _, z := range []proto.Message{(*cosmos_proto.InterfaceDescriptor)(nil), (*cosmos_proto.ScalarDescriptor)(nil)} {
+			subs = append(subs, &glue.Subject{FullName: z.ProtoReflect().Descriptor().FullName(), Zero: z, Origin: "checked-in"})
+		}
+	}
 	for _, s := range subs {
 		s := s
 		rep.Types = append(rep.Types, string(s.FullName))
